@@ -1117,6 +1117,41 @@ fn gen_corerace(seed: u64, n: usize) {
                 _ => list(vec![atom("res"), atom(g.r.below(4)), atom(100 + j)]),
             });
         }
+        // a third of the cases: sibling work inside ONE command (two requests / streams of one `and` / `all` / task pair), both
+        // answered concurrently, one call preempted at a point of its own choosing — the wake-up of the second answer has to
+        // travel through wakers the first call is using
+        if g.r.chance(1, 3) {
+            use harness::dsl::{Cmd, Instr};
+            g.emit_tags = vec![10, 11];
+            let leaf = |g: &mut Gen| {
+                if g.r.chance(2, 3) {
+                    Cmd::Req(g.opn(), g.expr(), g.tag())
+                } else {
+                    Cmd::Stream(g.opn(), g.expr(), g.tag())
+                }
+            };
+            let c = match g.r.below(4) {
+                0 => Cmd::And(Box::new(leaf(&mut g)), Box::new(leaf(&mut g))),
+                1 => Cmd::All(vec![leaf(&mut g), leaf(&mut g), leaf(&mut g)]),
+                2 => Cmd::Then(Box::new(Cmd::Done), Box::new(Cmd::And(Box::new(leaf(&mut g)), Box::new(leaf(&mut g))))),
+                _ => Cmd::Task(vec![
+                    Instr::Spawn(0, vec![Instr::Req(1, g.opn(), g.expr()), Instr::Emit(10, g.expr())]),
+                    Instr::Req(1, g.opn(), g.expr()),
+                    Instr::Emit(11, g.expr()),
+                ]),
+            };
+            let prog = vec![list(vec![atom(1), c.sexp()])];
+            let pre = vec![list(vec![atom("ev"), atom(1), atom(0)])];
+            let (x, y) = if g.r.chance(1, 2) { (0, 1) } else { (1, 0) };
+            let acts = vec![list(vec![atom("res"), atom(x), atom(200)]), list(vec![atom("res"), atom(y), atom(201)])];
+            let k = g.r.below(24) as usize;
+            let mut o = vec![0usize; k];
+            o.extend(vec![1; 48]);
+            o.extend(vec![0; 48]);
+            let line = list(vec![atom("corerace"), list(prog), list(pre), list(acts), order_sexp(&o)]);
+            writeln!(out, "{line}").unwrap();
+            continue;
+        }
         let nthreads = 2 + g.r.below(2);
         let mut acts = vec![];
         let mut used = vec![];
@@ -1135,7 +1170,19 @@ fn gen_corerace(seed: u64, n: usize) {
             });
         }
         let len = 6 + g.r.below(30);
-        let order: Vec<usize> = (0..len).map(|_| g.r.below(nthreads) as usize).collect();
+        let order: Vec<usize> = if g.r.chance(1, 2) {
+            (0..len).map(|_| g.r.below(nthreads) as usize).collect()
+        } else {
+            // one preemption: thread a passes k points, then thread b runs to its end, then a (and whoever is left) goes on —
+            // uniform random grants almost never let one call run through while another is parked deep inside its own
+            let a = g.r.below(nthreads) as usize;
+            let b = (a + 1 + g.r.below(nthreads - 1) as usize) % nthreads as usize;
+            let k = g.r.below(28) as usize;
+            let mut o = vec![a; k];
+            o.extend(vec![b; 48]);
+            o.extend(vec![a; 48]);
+            o
+        };
         let line = list(vec![atom("corerace"), list(prog), list(pre), list(acts), order_sexp(&order)]);
         writeln!(out, "{line}").unwrap();
     }
